@@ -1,5 +1,5 @@
 """Byte-level write faults for the cache writer (E5): a proxy for the `gzip`
-module global of file_builder.cache whose files fail on write."""
+module global of file_builder.cache (and a shim for its module-global `open`) whose files fail on write."""
 import errno
 import sys
 
@@ -86,15 +86,33 @@ _proxy = None
 
 
 def install_gzip_proxy():
-    """returns the proxy or None if the library does not use a module-global gzip"""
+    """returns the proxy (None only if file_builder.cache is not loaded).  Two interception points, so that the
+    faults reach the cache writer however it is written: the module-global `gzip` of file_builder.cache (gzip.open,
+    gzip.GzipFile) and the module-global name `open` of file_builder.cache (a writer that compresses by itself and
+    writes the bytes with open(..., 'wb'), or that hands its own raw file to GzipFile)."""
     global _proxy
     if _proxy is not None:
         return _proxy
     mod = sys.modules.get('file_builder.cache')
-    if mod is None or not hasattr(mod, 'gzip'):
+    if mod is None:
         return None
-    _proxy = GzipProxy(mod.gzip)
-    mod.gzip = _proxy
+    _proxy = GzipProxy(getattr(mod, 'gzip', None))
+    if hasattr(mod, 'gzip'):
+        mod.gzip = _proxy
+    import builtins
+    real_open = getattr(mod, 'open', builtins.open)
+    proxy = _proxy
+
+    def shim_open(file, mode='r', *a, **kw):
+        plan = proxy.plan
+        if plan is not None and isinstance(mode, str) and any(c in mode for c in 'wax'):
+            plan['opens'] += 1
+            if plan['mode'] == 'open' and not plan['fired']:
+                plan['fired'] = True
+                raise plan['exc']
+            return _FailingFile(real_open(file, mode, *a, **kw), plan)
+        return real_open(file, mode, *a, **kw)
+    mod.open = shim_open
     return _proxy
 
 
